@@ -125,15 +125,6 @@ def oracle_by_track(g, seg, out):
     return None
 
 
-def pre_build(ctx):
-    # re-translate utils/_segmentation_utils.py (Gen/LabelUtils_gen.v, tied by Proofs/LabelUtilsTie.v)
-    import translate_numpy_utils
-
-    ok, msg = translate_numpy_utils.regenerate_labels()
-    if not ok:
-        raise RuntimeError("translator refused _segmentation_utils.py: %s" % msg)
-
-
 def run(ctx):
     from funtracks.utils._segmentation_utils import ensure_unique_labels, relabel_segmentation_with_track_id
 
